@@ -331,6 +331,40 @@ class VerifMixedKeysContextProcessor(ContextProcessor):
         self._notify_context_update("a", "A")
 
 
+class VerifMixedKeysThenFailContextProcessor(ContextProcessor):
+    """Publishes one entry under an integer key and one under a string key, then fails."""
+
+    @classmethod
+    def context_keys(cls):
+        return [1, "a"]
+
+    def _process_logic(self):
+        self._notify_context_update(1, "one")
+        self._notify_context_update("a", "A")
+        raise ValueError("verif: boom after two writes")
+
+
+class VerifUnprintableError(Exception):
+    """An exception whose text cannot be produced."""
+
+    def __str__(self):
+        raise RuntimeError("verif: this exception has no text")
+
+
+class VerifUnprintableRaisingOperation(FloatOperation):
+    """Fails with an exception whose __str__ raises."""
+
+    def _process_logic(self, data):
+        raise VerifUnprintableError()
+
+
+class VerifOddDict(dict):
+    """A JSON-serialisable mapping whose constructor takes no arguments."""
+
+    def __init__(self):
+        super().__init__(a=1)
+
+
 class VerifRunMarker:
     """An object a caller puts into a run's context; live instances are counted after the runs."""
 
